@@ -5,9 +5,13 @@ whatever the datasets' statuses, readers still registered (a reader that was kil
 purges or disk jobs in flight — after any history of requests for which the store's invariant `Core` holds (all
 `SafeRun` histories; the excluded class is the one of known finding C08-purge-in-flight).
 This discharges, for the real status machine of Model/Shm.lean, the step `segments := []` that Model/Failure.lean
-takes when the shm server is shut down or SIGTERMed (`terminate`, `shmDies .sigterm`).
+takes when the shm server is shut down, SIGTERMed or leaves its request loop through an exception (`terminate`,
+`shmDies .sigterm`, `shmDies .loopException`): `serverExit` is what `entrypoint` does to the store on each way out of
+`LocalServer.start()` according to the table generated from cascade/shm/server.py (Gen/ShmEntry.lean), and
+`c05_server_exit_unlinks_all` shows that on EVERY way out nothing is left.
 -/
 import EkwVerif.Lemmas.ShmCore2
+import EkwVerif.Gen.ShmEntry
 
 namespace EkwVerif.Shm
 open Aux
@@ -120,6 +124,24 @@ theorem c05_atexit_ignores_readers (s : St) (k : String) (d : Dataset) (g : Seg)
   unfold purgeExit
   simp [hd, hs, hst]
 
+/-- the store after the server process has left `LocalServer.start()` by `x`: `entrypoint` runs the exit handler iff
+the table says so (otherwise the process exits with the store as it is: the segments stay in /dev/shm) -/
+def serverExit (e : Failure.ShmEntry) (s : St) (x : Failure.StartExit) : St :=
+  if e.cleansOn x then atexit s else s
+
+/-- whichever way the request loop of the source tree's server is left — ShutdownCommand, or an exception raised by
+`receive`/`respond` (one undecodable datagram is enough) — no segment survives the server process -/
+theorem c05_server_exit_unlinks_all (s : St) (hb : Base s) (hc : Core s) (x : Failure.StartExit) :
+    (serverExit Gen.shmEntry s x).segs = [] := by
+  have h : Gen.shmEntry.cleansOn x = true := by cases x <;> decide
+  simp only [serverExit, h, if_true]
+  exact c05_atexit_unlinks_all s hb hc
+
+theorem c05_server_exit_after_any_history (cap sc sr : Nat) (ops : List Op) (h : SafeRun (init cap sc sr) ops)
+    (x : Failure.StartExit) : (serverExit Gen.shmEntry (run (init cap sc sr) ops) x).segs = [] := by
+  obtain ⟨hb, hc⟩ := Aux.core_run ops (init cap sc sr) (Aux.base_init cap sc sr) (Aux.core_init cap sc sr) h
+  exact c05_server_exit_unlinks_all _ hb hc x
+
 /-! non-vacuity: a history that ends with a reader still holding a dataset and a second dataset being written -/
 def exOps : List Op :=
   [.add "a" 2 "" 1, .cwrite "a" 2 7, .closeW "a", .get "a" 2 ["r1"], .add "b" 1 "" 3, .cwrite "b" 1 9, .purge "a"]
@@ -128,5 +150,10 @@ example : SafeRun (init 4 10 10) exOps := by decide
 example : ((run (init 4 10 10) exOps).segs.map (·.1)) = ["a", "b"] := by decide
 example : ((run (init 4 10 10) exOps).ds.map (fun p => (p.1, p.2.readers.length, p.2.delayed))) = [("a", 1, true), ("b", 0, false)] := by decide
 example : (atexit (run (init 4 10 10) exOps)).segs = [] := by decide
+example : (serverExit Gen.shmEntry (run (init 4 10 10) exOps) .raised).segs = [] := by decide
+/-- with an `entrypoint` that runs the exit handler only when `start()` RETURNS, the same history followed by an
+exception out of the request loop leaves both segments in /dev/shm -/
+example : ((serverExit { Gen.shmEntry with rows := [⟨.returned, true, true⟩, ⟨.raised, true, false⟩] }
+    (run (init 4 10 10) exOps) .raised).segs.map (·.1)) = ["a", "b"] := by decide
 
 end EkwVerif.Shm
